@@ -40,6 +40,13 @@ func (g *gen) dur() *sc                  { return g.str("1s", "2s", "7s", "30s",
 func (g *gen) size() *sc                 { return g.str("1KB", "4KB", "10KB", "16KB", "1MB", "512B") }
 func (g *gen) word() *sc                 { return g.str(words...) }
 func (g *gen) id(kind string) string     { g.nid++; return fmt.Sprintf("%s_%d", kind, g.nid) }
+
+// discr is the `type` leaf of a mechanism or of the cache: it tells the definitions of the schema apart. Req says
+// whether the schema requires it in the file (schemaRequiresType; calibrated on the unchanged tree, see discr_test.go).
+func discr(kind, typ string) *sc {
+	return &sc{V: typ, Alt: typ, Fixed: true, Req: schemaRequiresType(kind, typ), Discr: true}
+}
+
 func (g *gen) url() *sc {
 	return g.str("http://foo.bar/a", "https://idp.example.com/oauth2/introspect", "http://127.0.0.1:4433/sessions/whoami",
 		"http://hydra:4445/x", "https://example.org/.well-known/jwks.json", "http://my-authz/check")
@@ -221,20 +228,20 @@ func (g *gen) service(name string) map[string]any {
 func (g *gen) cache() map[string]any {
 	switch pick(g, "in-memory", "noop", "redis", "redis-cluster", "redis-sentinel") {
 	case "in-memory":
-		return map[string]any{"type": fixed("in-memory")}
+		return map[string]any{"type": discr("cache", "in-memory")}
 	case "noop":
-		return map[string]any{"type": fixed("noop")}
+		return map[string]any{"type": discr("cache", "noop")}
 	case "redis":
 		c := g.redisBase()
 		c["address"] = g.req(g.str("foo:6379", "redis.local:1234", "10.0.0.7:6379"))
 		if g.p(0.4) {
 			c["db"] = g.integer(0, 15)
 		}
-		return map[string]any{"type": fixed("redis"), "config": c}
+		return map[string]any{"type": discr("cache", "redis"), "config": c}
 	case "redis-cluster":
 		c := g.redisBase()
 		c["nodes"] = g.reqFirst(g.strList(1, 3, "foo:1234", "bar:1234", "baz:7000", "n4:7001"))
-		return map[string]any{"type": fixed("redis-cluster"), "config": c}
+		return map[string]any{"type": discr("cache", "redis-cluster"), "config": c}
 	default:
 		c := g.redisBase()
 		c["nodes"] = g.reqFirst(g.strList(1, 3, "foo:1234", "bar:1234", "baz:7000", "n4:7001"))
@@ -242,7 +249,7 @@ func (g *gen) cache() map[string]any {
 		if g.p(0.4) {
 			c["db"] = g.integer(0, 15)
 		}
-		return map[string]any{"type": fixed("redis-sentinel"), "config": c}
+		return map[string]any{"type": discr("cache", "redis-sentinel"), "config": c}
 	}
 }
 
@@ -420,7 +427,7 @@ func (g *gen) subject() map[string]any {
 
 func (g *gen) authenticator() map[string]any {
 	t := pick(g, "anonymous", "unauthorized", "basic_auth", "generic", "oauth2_introspection", "jwt", "jwt", "anonymous")
-	m := map[string]any{"id": g.req(&sc{V: g.id("authn"), Alt: g.id("authn_alt")}), "type": fixed(t)}
+	m := map[string]any{"id": g.req(&sc{V: g.id("authn"), Alt: g.id("authn_alt")}), "type": discr("authenticators", t)}
 	switch t {
 	case "anonymous":
 		if g.p(0.5) {
@@ -526,7 +533,7 @@ func (g *gen) expressions() []any {
 
 func (g *gen) authorizer() map[string]any {
 	t := pick(g, "allow", "deny", "cel", "remote")
-	m := map[string]any{"id": g.req(&sc{V: g.id("authz"), Alt: g.id("authz_alt")}), "type": fixed(t)}
+	m := map[string]any{"id": g.req(&sc{V: g.id("authz"), Alt: g.id("authz_alt")}), "type": discr("authorizers", t)}
 	switch t {
 	case "cel":
 		m["config"] = map[string]any{"expressions": g.expressions()}
@@ -569,12 +576,12 @@ func (g *gen) contextualizer() map[string]any {
 	if g.p(0.3) {
 		c["values"] = g.strMap(1, 2, []string{"some-value", "v2", "{{ .Subject.ID }}"})
 	}
-	return map[string]any{"id": g.req(&sc{V: g.id("ctx"), Alt: g.id("ctx_alt")}), "type": fixed("generic"), "config": c}
+	return map[string]any{"id": g.req(&sc{V: g.id("ctx"), Alt: g.id("ctx_alt")}), "type": discr("contextualizers", "generic"), "config": c}
 }
 
 func (g *gen) finalizer() map[string]any {
 	t := pick(g, "noop", "jwt", "header", "cookie", "oauth2_client_credentials")
-	m := map[string]any{"id": g.req(&sc{V: g.id("fin"), Alt: g.id("fin_alt")}), "type": fixed(t)}
+	m := map[string]any{"id": g.req(&sc{V: g.id("fin"), Alt: g.id("fin_alt")}), "type": discr("finalizers", t)}
 	switch t {
 	case "jwt":
 		signer := map[string]any{"key_store": map[string]any{"path": fixed(g.w.pemKey)}}
@@ -608,7 +615,7 @@ func (g *gen) finalizer() map[string]any {
 
 func (g *gen) errorHandler() map[string]any {
 	t := pick(g, "default", "redirect")
-	m := map[string]any{"id": g.req(&sc{V: g.id("eh"), Alt: g.id("eh_alt")}), "type": fixed(t)}
+	m := map[string]any{"id": g.req(&sc{V: g.id("eh"), Alt: g.id("eh_alt")}), "type": discr("error_handlers", t)}
 	if t == "redirect" {
 		c := map[string]any{"to": g.req(g.str("http://127.0.0.1:4433/login?return_to={{ .Request.URL | urlenc }}", "https://login.example.com", "http://foo.bar/signin"))}
 		if g.p(0.5) {
